@@ -32,11 +32,11 @@ if '--skip-confirm' not in sys.argv:
     ran.append('cargo run --offline --example seed_demo   (patch applied) -> exit %d' % r1.returncode)
     res['demo_with_patch_exit'] = r1.returncode
     res['demo_with_patch_tail'] = r1.stdout.strip()[-400:]
-    sh('git diff -- src > /tmp/seed_eval_confirm.patch; git apply -R /tmp/seed_eval_confirm.patch')
+    sh('git diff -- src > /tmp/seed_eval_confirm_%s.patch' % name + '; git apply -R /tmp/seed_eval_confirm_%s.patch' % name + '')
     r2 = sh('cargo run --offline --example seed_demo 2>&1 | tail -3; exit ${PIPESTATUS[0]}', executable='/bin/bash')
     ran.append('git apply -R <patch>; cargo run --offline --example seed_demo -> exit %d' % r2.returncode)
     res['demo_without_patch_exit'] = r2.returncode
-    sh('git apply /tmp/seed_eval_confirm.patch; rm -f /tmp/seed_eval_confirm.patch')
+    sh('git apply /tmp/seed_eval_confirm_%s.patch' % name + '; rm -f /tmp/seed_eval_confirm_%s.patch' % name + '')
     res['confirmed'] = ('passed' in res['tests_with_patch'] and ' 0 failed' not in '' and r1.returncode != 0 and r2.returncode == 0)
 # run checks on a scratch copy of the CURRENT /repo with the patch
 mw = '/tmp/mutwt_' + name
